@@ -3,7 +3,7 @@
 # (suite passes with it, demo fails with it and passes without), store it under seeded/,
 # and run the named checks (default: the property's own) against the changed tree.
 pid=$1; i=$2; shift 2
-pre=${SEED_PREFIX:-seed}; wt=/tmp/$pre-$pid; sd=$wt/_seed; dst=/verif/seeded/$pid-$i; [ "$pre" = seed2 ] && dst=/verif/seeded/$pid-w2-$i; [ "$pre" = seed3 ] && dst=/verif/seeded/$pid-w3-$i; [ "$pre" = seed4 ] && dst=/verif/seeded/$pid-w4-$i; [ "$pre" = seed5 ] && dst=/verif/seeded/$pid-w5-$i; [ "$pre" = seed6 ] && dst=/verif/seeded/$pid-w6-$i; [ "$pre" = seed7 ] && dst=/verif/seeded/$pid-w7-$i; [ "$pre" = seed8 ] && dst=/verif/seeded/$pid-w8-$i; [ "$pre" = seed9 ] && dst=/verif/seeded/$pid-w9-$i; [ "$pre" = seed10 ] && dst=/verif/seeded/$pid-w10-$i; [ "$pre" = seed11 ] && dst=/verif/seeded/$pid-w11-$i
+pre=${SEED_PREFIX:-seed}; wt=/tmp/$pre-$pid; sd=$wt/_seed; dst=/verif/seeded/$pid-$i; [ "$pre" = seed2 ] && dst=/verif/seeded/$pid-w2-$i; [ "$pre" = seed3 ] && dst=/verif/seeded/$pid-w3-$i; [ "$pre" = seed4 ] && dst=/verif/seeded/$pid-w4-$i; [ "$pre" = seed5 ] && dst=/verif/seeded/$pid-w5-$i; [ "$pre" = seed6 ] && dst=/verif/seeded/$pid-w6-$i; [ "$pre" = seed7 ] && dst=/verif/seeded/$pid-w7-$i; [ "$pre" = seed8 ] && dst=/verif/seeded/$pid-w8-$i; [ "$pre" = seed9 ] && dst=/verif/seeded/$pid-w9-$i; [ "$pre" = seed10 ] && dst=/verif/seeded/$pid-w10-$i; [ "$pre" = seed11 ] && dst=/verif/seeded/$pid-w11-$i; [ "$pre" = seed12 ] && dst=/verif/seeded/$pid-w12-$i
 checks=${@:-$pid}
 [ -f $sd/patch$i.diff ] || { echo "no patch $sd/patch$i.diff"; exit 2; }
 mkdir -p $dst; cp $sd/patch$i.diff $dst/patch.diff; cp $sd/demo$i.py $dst/demo.py; cp $sd/notes$i.md $dst/notes.md 2>/dev/null
